@@ -17,7 +17,7 @@ NAMES = ['x', 'y', 'z']
 
 def bounds(tier):
     return dict(variables=3, functions=256, orders=6 if tier == 'thorough' else 2,
-                compose_samples_per_function=6 if tier == 'quick' else 40, sampled_5var=200 if tier == 'quick' else 4000)
+                compose_samples_per_function=6 if tier == 'quick' else 40, sampled_5var=200 if tier == 'quick' else 4000 * DEEP)
 
 
 def chunks(tier, seed):
@@ -30,7 +30,7 @@ def chunks(tier, seed):
             for part in range(4):
                 out.append(('case_all3', [dict(order=list(o), warm=warm, part=part, seed=seed,
                                                ncomp=6 if tier == 'quick' else 40)]))
-    n5 = 200 if tier == 'quick' else 4000
+    n5 = 200 if tier == 'quick' else 4000 * DEEP
     for k in range(0, n5, 25):
         out.append(('case_sampled', [dict(seed=seed * 7 + k, count=25, nvars=4 + (k // 25) % 2, dyn=(k // 50) % 2)]))
     return out
